@@ -194,6 +194,20 @@ CHECKS = {
         note="Exhaustive over shipped data (finite); getter obligations modulo the AbstractState contract; thermodynamic inequalities are "
              "properties of CoolProp and only sampled (5 temperatures quick / 25 thorough per fluid).",
         technique="exhaustive evaluation of the real functions over the shipped data; symbolic execution of the getters with a failing-backend stub"),
+    'C08': dict(
+        category='other',
+        text="Contract level (discharged): the SQL builders emit exactly the statement grammar (exhaustive over column lists up to 3); per "
+             "operation the recorded statement sequence obeys its contract (existence check first and refusal when absent without any "
+             "write, DELETE in every dependent table then the main row, main row before dependent rows on upload, duplicates and "
+             "overwrites of absent items refused); a retrieved adsorbate/material/isotherm equals the stored one (every data column and "
+             "branch mark) and deletes it; a static reads clause lists which operations let in-memory registries decide database "
+             "writes. History quantifier (bounded, never counted as proved): every operation sequence of length <= 2 plus seeded random "
+             "sequences of length 3-4 (thorough: 3-6) over a universe of 2 adsorbates, 2 materials, 3 isotherms, 1-2 database files, "
+             "compared step by step (outcome, every *_from_db result, orphan rows) with a dictionary model.",
+        design_ref='§3 C08',
+        note="SQL semantics come from the real sqlite3 library; equivalence over arbitrary histories is only sampled; known finding: "
+             "auto-insertion is decided by the in-memory registries (two database files).",
+        technique="statement-sequence contracts on recorded traces + static reads clause; bounded model-based history testing on real files"),
 }
 
 NOT_YET = {
